@@ -31,7 +31,9 @@ func hx(b []byte) string {
 
 // wdReq builds a withdrawal request to a P2WPKH address derived from (seed,id).
 func wdReq(seed uint64, id uint64, amount, price uint64) (*goattypes.WithdrawalRequest, []byte) {
-	h := world.Derive(seed, "wd-addr", int(id))[:20]
+	// withdrawals 2k and 2k+1 ask for the same address: two batches may then carry interchangeable transactions, so a
+	// payload moved from one id or batch to its twin stays valid in everything but the vote
+	h := world.Derive(seed, "wd-addr", int(id/2))[:20]
 	addr, script := world.P2WPKH(h, regtest)
 	return &goattypes.WithdrawalRequest{Id: id, Amount: amount, TxPrice: price, Address: addr}, script
 }
@@ -97,6 +99,7 @@ type bridgeModel struct {
 	wdAmount uint64
 	lastPid  int64 // last processing id created (-1 none)
 	lastFee  uint64
+	maxFee   uint64 // highest fee of any batch so far: a replacement above it is a fee bump for every batch
 	pids     uint64
 	keyCtr   int
 	relKey   *relayertypes.PublicKey
@@ -153,7 +156,7 @@ func (m *bridgeModel) payload(kind, proposer string, salt int) (msg voteMsg, ok 
 		wid := m.wdOfPid[uint64(m.lastPid)]
 		_, script := wdReq(m.seed, wid, 0, 0)
 		tx := m.bc.FillerTx(wire.NewTxOut(int64(m.wdAmount-2000-uint64(salt%7)), script))
-		return &bitcointypes.MsgReplaceWithdrawal{Proposer: proposer, Pid: uint64(m.lastPid), NewNoWitnessTx: world.NoWitness(tx), NewTxFee: m.lastFee + 1 + uint64(salt%5)}, true
+		return &bitcointypes.MsgReplaceWithdrawal{Proposer: proposer, Pid: uint64(m.lastPid), NewNoWitnessTx: world.NoWitness(tx), NewTxFee: max(m.lastFee, m.maxFee) + 1 + uint64(salt%5)}, true
 	case "consolidation":
 		tx := m.bc.FillerTx(wire.NewTxOut(int64(50_000+salt), world.SystemScript(m.relKey)))
 		return &bitcointypes.MsgNewConsolidation{Proposer: proposer, NoWitnessTx: world.NoWitness(tx)}, true
@@ -171,12 +174,76 @@ func (m *bridgeModel) accepted(msg voteMsg) {
 		m.wdOfPid[m.pids] = t.Id[0]
 		m.pids++
 		m.lastFee = t.TxFee
+		m.maxFee = max(m.maxFee, t.TxFee)
 		m.nextWd++
 	case *bitcointypes.MsgReplaceWithdrawal:
 		m.lastFee = t.NewTxFee
+		m.maxFee = max(m.maxFee, t.NewTxFee)
 	case *bitcointypes.MsgNewPubkey:
 		m.relKey = t.Pubkey
 	}
+}
+
+// mutatePayloadField changes one field of the payload after signing (the vote then covers other content). Every field
+// the vote must bind is reachable through k; where the model knows a twin (another id or batch that the same Bitcoin
+// transaction would satisfy) the changed message stays valid in everything but its vote. Returns what was changed.
+func mutatePayloadField(msg voteMsg, k int, m *bridgeModel) string {
+	switch t := msg.(type) {
+	case *bitcointypes.MsgNewBlockHashes:
+		n := len(t.BlockHash)
+		switch {
+		case n == 0:
+		case k%5 == 1: // the last hash
+			h := append([]byte(nil), t.BlockHash[n-1]...)
+			h[31] ^= 0x80
+			t.BlockHash = append(append([][]byte{}, t.BlockHash[:n-1]...), h)
+			return "last hash"
+		case k%5 == 2 && n >= 3: // a hash in the middle
+			h := append([]byte(nil), t.BlockHash[n/2]...)
+			h[7] ^= 4
+			cp := append([][]byte{}, t.BlockHash...)
+			cp[n/2] = h
+			t.BlockHash = cp
+			return "middle hash"
+		case k%5 == 3 && n >= 2: // one hash fewer (same start, same first hashes)
+			t.BlockHash = append([][]byte{}, t.BlockHash[:n-1]...)
+			return "one hash fewer"
+		case k%5 == 4 && n < 16: // one hash more
+			t.BlockHash = append(append([][]byte{}, t.BlockHash...), world.Derive(7, "mut-extra-hash", int(t.StartBlockNumber)))
+			return "one hash more"
+		}
+	case *bitcointypes.MsgProcessWithdrawal:
+		if m != nil && k%3 == 1 && len(t.Id) == 1 {
+			twin := t.Id[0] ^ 1
+			if twin < m.maxWd && twin >= m.nextWd {
+				t.Id = []uint64{twin}
+				return "withdrawal id -> the twin id with the same address"
+			}
+		}
+		if k%3 == 2 {
+			tx := append([]byte(nil), t.NoWitnessTx...)
+			tx[len(tx)-1] ^= 1 // lock time: same outputs, another transaction
+			t.NoWitnessTx = tx
+			return "transaction (lock time)"
+		}
+	case *bitcointypes.MsgReplaceWithdrawal:
+		if m != nil && k%3 == 1 && t.Pid > 0 {
+			if a, ok1 := m.wdOfPid[t.Pid]; ok1 {
+				if b, ok2 := m.wdOfPid[t.Pid-1]; ok2 && a/2 == b/2 {
+					t.Pid--
+					return "batch id -> the twin batch whose withdrawal has the same address"
+				}
+			}
+		}
+		if k%3 == 2 {
+			tx := append([]byte(nil), t.NewNoWitnessTx...)
+			tx[len(tx)-1] ^= 1
+			t.NewNoWitnessTx = tx
+			return "transaction (lock time)"
+		}
+	}
+	mutatePayload(msg)
+	return "default field"
 }
 
 // mutatePayload changes the payload after signing (the vote then covers other content).
